@@ -117,6 +117,9 @@ pub fn run(desc: &Value, ctx: &Ctx) -> CaseOut {
             };
             Some((v, infos))
         };
+        // a handle on the file opened BEFORE the history and kept for all of it: what it reads after each rewrite is the file as
+        // it then is (the library reads the manifest from the file each time one is built from this handle)
+        let kept = jbk::tools::open_pack(&target).ok();
         let mut bytes = std::fs::read(&target).unwrap();
         let (view0, infos0) = match read_manifest(&bytes) {
             Some(x) => x,
@@ -278,6 +281,32 @@ pub fn run(desc: &Value, ctx: &Ctx) -> CaseOut {
                             return;
                         }
                         None => out.obs.inc("command_line_readback_not_parsed_or_unavailable"),
+                    }
+                }
+            }
+            if let Some(cp) = &kept {
+                let r = util::catch(|| -> Result<(), String> {
+                    let mr = cp.get_manifest_pack_reader().map_err(|e| e.to_string())?.ok_or("no manifest reader")?;
+                    let m = jbk::reader::ManifestPack::new(mr).map_err(|e| format!("ManifestPack::new: {e}"))?;
+                    let mut all = vec![m.get_directory_pack_info().clone()];
+                    all.extend(m.get_pack_infos().iter().cloned());
+                    for pi in all {
+                        let want = &model[pi.uuid.as_bytes()];
+                        if pi.pack_location.as_str() != want {
+                            return Err(format!("a handle opened before the history reads location {:?} for {}, the file now holds {:?}", pi.pack_location.as_str(), pi.uuid, want));
+                        }
+                    }
+                    Ok(())
+                });
+                match r {
+                    Ok(Ok(())) => out.obs.inc("readbacks_through_a_handle_opened_before"),
+                    Ok(Err(e)) => {
+                        fail(&mut out, "kept-handle-readback", e);
+                        return;
+                    }
+                    Err(p) => {
+                        out.violate_panic("C12", "kept-handle-readback", &layout, &p);
+                        return;
                     }
                 }
             }
